@@ -592,7 +592,7 @@ def report_disagreements(rep, scs, failing, theorems=("C04_wire", "C09_wire", "C
             "correspondence": "Model/Dispatch.v check_dispatch vs /repo dispatch events",
             "diag_code": code, "model_guard": stop,
             "reason": {1: "pre-state of the addressed record differs", 2: "identifier bookkeeping differs", 3: "outputs differ", 4: "model Stuck",
-                       5: "model Panic", 7: "final snapshot differs"}.get((code or 0) % 10 if code != 7 else 7, "?"),
+                       5: "model Panic", 6: "a record has a shape the theorems exclude (wf_shape / ids_wf)", 7: "final snapshot differs"}.get((code or 0) % 10 if code != 7 else 7, "?"),
             "first_diverging_label": (ent[k].label() + "  expecting " + ent[k].expect()) if k is not None and k < len(ent) else None,
             "labels_before": [e.label() for e in ent[max(0, (k or 0) - 6):(k or 0)]],
             "labels_same_stream": same_stream(ent, k),
@@ -630,3 +630,93 @@ if __name__ == "__main__":
     report_disagreements(rep, scs, failing)
     for pth, _ in rep.violations[:3]:
         print(open(pth).read()[:3500])
+
+
+# ------------------------------------------------------------------------------------------------
+# plug-in side: theorem lists, corpus, the correspondence entry used by c04 / c09 / c17
+
+THEOREMS = {
+    "C04": ["C04_wire_send_request_opens", "C04_wire_next_id_increases", "C04_wire_push_request_reserves",
+            "C04_wire_send_response_queues", "C04_wire_send_data_queues", "C04_wire_send_trailers_queues",
+            "C04_wire_send_info_queues", "C04_wire_pop_needs_send_ready", "C04_wire_pop_emits_front",
+            "C04_wire_window_update_only_receiving", "C04_wire_send_closed_queues_nothing"],
+    "C09": ["C09_wire_other_streams_untouched", "C09_wire_conn_error_required_except_known", "C09_wire_idle_is_conn_error",
+            "C09_wire_refused_not_surfaced", "C09_wire_stream_error_resets", "C09_wire_poll2_reset", "C09_wire_tolerated",
+            "C09_wire_forgotten_tolerated", "C09_wire_new_stream_tolerated", "C09_wire_conn_error_required_refuted",
+            "C09_wire_lenient_witnesses", "C09_wire_push_refusal_fix_needed"],
+    "C17": ["C17_wire_explicit_reset", "C17_wire_last_drop", "C17_wire_pop_scheduled", "C17_wire_reset_emitted_only_if_queued",
+            "C17_wire_no_second_reset", "C17_wire_drop_after_end_nothing", "C17_wire_peer_reset_reaches_handles",
+            "C17_wire_peer_reset_surfaces_exact", "C17_wire_conn_error_reaches_handles", "C17_wire_go_away_reaches_handles",
+            "C17_wire_nonvacuous"],
+}
+MODULES = {"C04": "H2V.Properties.C04_wire", "C09": "H2V.Properties.C09_wire", "C17": "H2V.Properties.C17_wire"}
+TARGETS = {"C04": "Properties/C04_wire.vo", "C09": "Properties/C09_wire.vo", "C17": "Properties/C17_wire.vo"}
+
+PARTIAL = {
+    "C04": "PARTIAL (dispatch layer, Properties/C04_wire.v): proved for one step from any state and all observed inputs - what each API call "
+           "queues and under which state-machine verdict, that a pop emits exactly the front of that stream's queue (or the scheduled RST_STREAM) "
+           "and never visits a stream that is idle on the wire, identifiers (next id, parity, overflow marker instead of wrap), nothing queued "
+           "after END_STREAM or a reset; NOT proved: the composition of these local facts into one statement about whole emission logs "
+           "(the sender automaton Ref/Rfc9113Stream.v wire_accepts is stated, the log-level invariant is open; two records of one id - an "
+           "unlinked record with a scheduled reset and the record Inner::send_reset makes for a late frame - can both emit a RST_STREAM); header "
+           "block contiguity and frame-type/stream-0 rules are the codec's (C12); the wire sender oracle stays the search side",
+    "C09": "PARTIAL (dispatch layer, Properties/C09_wire.v): proved for one step from any state - confinement to the frame's own stream, "
+           "connection error where RFC 9113 5.1 demands one EXCEPT the characterised `lenient` classes (frames on a promised stream whose "
+           "PUSH_PROMISE is still queued, on a locally reset stream, PUSH_PROMISE on a request still waiting for a slot, HEADERS on reserved(local), "
+           "WINDOW_UPDATE / nested PUSH_PROMISE on reserved(remote): closed witnesses, reproduced on the real crate), refused frames never handed to "
+           "the application, stream error => reset of that stream, tolerance of every frame 5.1 permits; the record-shape hypotheses wf_shape / "
+           "ids_wf are checked at every label of every lock-step run, their invariance is not proved; connection-level frames (SETTINGS, PING, "
+           "framing, HPACK) are C12/C14; the reaction / tolerance oracles stay the search side",
+    "C17": "PARTIAL (dispatch layer, Properties/C17_wire.v): proved for one step from any state and every 32-bit code - explicit reset (one "
+           "RST_STREAM with the caller's code after queued HEADERS of an unopened stream, none when closed cleanly, own queue only), last-handle "
+           "drop (scheduled CANCEL / NO_ERROR), what the queue emits afterwards, no second reset, peer RST_STREAM / GOAWAY / connection error "
+           "reaching every handle with the exact code, origin and debug data (composed with C17_state_*); under `no_push` (the queue holds no "
+           "unsent PUSH_PROMISE; otherwise the promised streams are failed as well, repair cc6ac6c); NOT proved: the count of RST_STREAM frames "
+           "over whole histories when one id has two records (see C04); the position of the RST_STREAM relative to frames already inside the "
+           "codec is the data path's (C01); the reset oracle stays the search side",
+}
+
+
+def run_corpus_dispatch(rep):
+    """replays under corpus/dispatch run first, through the real crate and the lock-step"""
+    d = os.path.join(common.VERIF, "corpus", "dispatch")
+    if not os.path.isdir(d):
+        return
+    ok, binp, log = common.cargo_build("conn")
+    if not ok:
+        raise common.HarnessBuildError(log)
+    cases, names = [], []
+    import json
+    for fn in sorted(os.listdir(d)):
+        if not fn.endswith(".json"):
+            continue
+        rc, out, _ = common.sh([binp, "--replay", os.path.join(d, fn)], timeout=120)
+        try:
+            o = json.loads(out.strip().splitlines()[-1])
+        except Exception:
+            continue
+        case, _, nl, _ = coq_case(o)
+        if case and nl:
+            cases.append(case)
+            names.append(fn)
+    failing, err = common.coq_eval_failing("dispatch_corpus", PREAMBLE, "check_dispatch", cases, shard=10)
+    for i in failing:
+        rep.violation("broken-correspondence", {"correspondence": "Model/Dispatch.v check_dispatch on corpus replay", "replay": os.path.join(d, names[i])}, no_input=True)
+    if err:
+        rep.violation("broken-correspondence", {"what": "coqc failed on dispatch corpus cases", "log": err[-2000:]}, no_input=True)
+    rep.correspondences.append({"name": "dispatch-corpus", "cases": len(cases), "nontrivial": len(cases), "disagreements": len(failing),
+                                "distribution": {"replays": names}, "rule": "corpus/dispatch/*.json replayed on the real crate, then the lock-step"})
+
+
+def correspond_for(rep, prop, tier, seed, search):
+    """lock-step of the dispatch model for property `prop`; `search(rep, tier, seed)` is the property's oracle search"""
+    rep.partial.append(PARTIAL[prop])
+    run_corpus_dispatch(rep)
+    per = 7 if tier == "quick" else 300
+    scs, failing = correspond_dispatch(rep, tier, seed * 17 + ord(prop[-1]), per=per)
+    if failing:
+        before = len(rep.violations)
+        found = search(rep, tier, seed)
+        if not found or len(rep.violations) == before:
+            report_disagreements(rep, scs, failing, theorems=THEOREMS[prop])
+    return failing
